@@ -33,10 +33,11 @@ type RigConfig struct {
 	Hint     bool `json:"id_to_type_hint"`
 	Cached   bool `json:"cached_planner"`
 	RealHTTP bool `json:"real_multiop_queryer"` // MultiOpQueryer + HTTP bridge between executor and fakes
+	MaxBatch int  `json:"max_batch_size,omitempty"`
 }
 
 func (c RigConfig) String() string {
-	return fmt.Sprintf("hide=%v hint=%v cached=%v", c.HideNode, c.Hint, c.Cached)
+	return fmt.Sprintf("hide=%v hint=%v cached=%v http=%v/%d", c.HideNode, c.Hint, c.Cached, c.RealHTTP, c.MaxBatch)
 }
 
 type Rig struct {
@@ -117,7 +118,11 @@ func NewRig(w *gen.World, cfg RigConfig) (*Rig, error) {
 		pebbles.WithQueryerFactory(func(ctx *planner.PlanningContext, url string) queryer.Queryer {
 			if s, ok := r.Services[url]; ok {
 				if cfg.RealHTTP {
-					return queryer.NewMultiOpQueryer(url, 3000).WithHTTPClient(&http.Client{Transport: r.Bridges[url]})
+					mb := cfg.MaxBatch
+					if mb <= 0 {
+						mb = 3000
+					}
+					return queryer.NewMultiOpQueryer(url, mb).WithHTTPClient(&http.Client{Transport: r.Bridges[url]})
 				}
 				return s
 			}
